@@ -435,7 +435,7 @@ func UnmarshalError(r xml.TokenReader) (Error, error) {
 	iter := xmlstream.NewIter(r)
 	for iter.Next() {
 		start, p := iter.Current()
-		if start.Name.Local != "error" {
+		if start == nil || start.Name.Local != "error" {
 			continue
 		}
 
